@@ -1,6 +1,7 @@
 (* C03 -- Size limit bounds each read; no data lost or repeated across reads.
    Histories of read() calls are GStart choices of G: each starts a new call with an arbitrary limit. *)
 From Coq Require Import List NArith Bool.
+Require SP.Lib.WinComm SP.Proofs.WinCommProofs.
 Require Import SP.Params SP.Lib.Comm SP.Kernel.CommK SP.Kernel.CommSys
                SP.Proofs.CommBase SP.Proofs.CommReady SP.Proofs.CommInv SP.Proofs.CommTerm SP.Proofs.CommThms.
 Import ListNotations.
@@ -41,6 +42,18 @@ Theorem C03_empty_means_eof :
     (piped_err (gw g) = true -> wr (perr (gw g)) = false /\ buf (perr (gw g)) = []).
 Proof. exact empty_means_eof. Qed.
 Print Assumptions C03_empty_means_eof.
+
+Module Win.
+Import SP.Lib.WinComm SP.Proofs.WinCommProofs.
+Local Open Scope nat_scope.
+(* ---- the cfg(windows) thread variant: the limit (n >= 1) holds at every instant of a read ---- *)
+Theorem C03_win_limit_respected : forall (pi po pe : bool) (ci co ce : nat) (child : list cop) (input : list N) chs s c lim,
+  Forall good_choice chs -> wrun (winit pi po pe ci co ce child input) chs = Some s ->
+  call s = Some c -> m_limit c = Some lim -> (length (WinComm.m_out c) + length (WinComm.m_err c) <= lim)%nat.
+Proof. exact win_limit_respected. Qed.
+Print Assumptions C03_win_limit_respected.
+
+End Win.
 
 Example C03_nonvacuous :
   let g0 := ginit false true false 4096 4096 4096 [CWrite SOut [5;6;7;8;9]%N] [] (Some 2%N) None in
